@@ -476,6 +476,8 @@ func (c *specCtx) eval(x Expr) Val {
 
 func (c *specCtx) field(base Val, name string) Val {
 	switch b := base.(type) {
+	case VOpaque: // argument/result of a call that did not happen on this path: any field of it is arbitrary too
+		return VOpaque{Id: c.e.fresh("nocall", IntS)}
 	case VStruct:
 		i, _, ok := fieldIndex(b.T, name)
 		if !ok {
@@ -528,6 +530,12 @@ func (c *specCtx) mapGet(m VMap, key Val) (Val, *Term) {
 }
 
 func (c *specCtx) specEq(a, b Val) *Term {
+	_, oa := a.(VOpaque)
+	_, ob := b.(VOpaque)
+	if oa != ob {
+		// one side is a value of a call that did not happen on this path (clauses guard with called/callCount): unknown
+		return c.e.fresh("nocallcmp", BoolS)
+	}
 	if _, ok := a.(VNil); ok {
 		a, b = b, a
 	}
@@ -917,6 +925,30 @@ func (c *specCtx) evalCall(n *ECall) Val {
 			c.fail("closed needs a channel")
 		}
 		return VBool{Select(c.heap(chanHeap, RowB), ch.Id)}
+	case "visited": // visited(k): key identity k has already been yielded by the (only) map iteration of this function
+		var name string
+		for hn := range c.heaps {
+			if strings.HasPrefix(hn, "RV$") {
+				if name != "" && name != hn {
+					c.fail("visited: more than one map iteration in this function")
+				}
+				name = hn
+			}
+		}
+		if name == "" {
+			// before the iteration started nothing has been visited
+			return VBool{False}
+		}
+		return VBool{Select(c.heap(name, RowB), c.evalInt(n.Args[0]))}
+	case "keyId": // identity of the map key a string obtained from a map iteration stands for
+		sv, ok := c.eval(n.Args[0]).(VString)
+		if !ok {
+			c.fail("keyId needs a string")
+		}
+		return VInt{App("mapkey$id", IntS, sv.Obj)}
+	case "keyString": // the text of the string key with identity k (string-keyed maps are only iterated, never indexed)
+		k := c.evalInt(n.Args[0])
+		return VString{App("mapkey$obj", IntS, k), Zero, App("mapkey$len", IntS, k)}
 	case "payload": // scalar stored in an interface value (the dynamic value of an int32 boxed into interface{})
 		iv, ok := c.eval(n.Args[0]).(VIface)
 		if !ok {
@@ -925,6 +957,23 @@ func (c *specCtx) evalCall(n *ECall) Val {
 		return VInt{iv.Data}
 	case "itoa": // the string strconv.Itoa(x)
 		return itoaString(c.evalInt(n.Args[0]))
+	case "callFn": // callFn(f, n): the function value invoked by the n-th call logged under f (opaque calls)
+		name := n.Args[0].(*EIdent).Name
+		nth := c.evalInt(n.Args[1])
+		if !nth.IsConst() {
+			c.fail("callFn needs a constant index")
+		}
+		k := 0
+		for _, cr := range c.st.calls {
+			if cr.target != name {
+				continue
+			}
+			if int64(k) == nth.N.Int64() && cr.fn != nil {
+				return cr.fn
+			}
+			k++
+		}
+		return VOpaque{Id: c.e.fresh("nocall", IntS)}
 	case "callSeq": // callSeq(f, n): position of the n-th call of f in the sequence of calls made (-1: no such call)
 		name := n.Args[0].(*EIdent).Name
 		nth := c.evalInt(n.Args[1])
@@ -1045,6 +1094,16 @@ func (c *specCtx) bodyCtx(sf *SpecFunc, vals []Val) *specCtx {
 }
 
 func (c *specCtx) applySpecVals(sf *SpecFunc, vals []Val) Val {
+	if sf.Uninterpreted {
+		var ts []*Term
+		for _, v := range vals {
+			ts = append(ts, Flatten(v)...)
+		}
+		if retSort(sf.Ret) == BoolS {
+			return VBool{App("uf$"+sf.Name, BoolS, ts...)}
+		}
+		return VInt{App("uf$"+sf.Name, IntS, ts...)}
+	}
 	if !sf.Rec {
 		v := c.bodyCtx(sf, vals).eval(sf.Body)
 		// name large ground integer results (let-naming): keeps offsets small and syntactically shared
